@@ -778,12 +778,11 @@ def run(ctx, maxn=None, batch=120):
             ctx.violation("grid-vs-graph:%s" % detail["what"].split()[0].lower(),
                           "simulating on grid_to_graph(space) differs from simulating on the grid: %s" % detail["what"],
                           {"kind": "grid_vs_graph", "desc": desc, "kinetics": kin}, impl=detail, expected="equal to rounding")
-    ctx.notes.append("partial: proved for all sizes are the bijection, the rejection iff, are_neighbors <-> face adjacency, the engine "
-                     "table's involution and soundness (every entry a face neighbour), soundness of the get_neighbors rules, the rule "
-                     "ties of the kinetics loop and grid_to_graph, grid_to_graph geometry; NOT proved for all sizes (checked exhaustively "
-                     "for w,h,d <= 3 quick / <= 5 thorough on model and real code): completeness of get_neighbors / kinetics / engine "
-                     "enumeration (every face neighbour is listed, with the multiplicities on periodic axes of length 1 and 2) and "
-                     "'edge multiset of grid_to_graph = face pairs'")
+    ctx.notes.append("proved for ALL w,h,d >= 1 and all 8 settings (no size bound): bijection, rejection iff, are_neighbors <-> face "
+                     "adjacency, get_neighbors_iff, kinetics_enum_iff (no error, exactly the are_neighbors cells), engine_nbr_iff + "
+                     "engine_nbr_count (slot multiplicity = faceCount: 2 self entries per periodic axis of length 1, 2 across a periodic "
+                     "axis of length 2, else 1), grid_to_graph_adjacency (every edge a face pair, every face pair an edge, multiplicity "
+                     "in both orientations = faceCount) and geometry; nothing of the adjacency part is left to the exhaustive check alone")
     ctx.notes.append("graph_rate_eq_grid_rate (rate law on toGraph g = rate law on g) is not a Lean theorem here: it needs the "
                      "deterministic-engine model of C01; adjacency/geometry theorems are proved, the equality itself is checked on the real code")
 
